@@ -11,7 +11,7 @@ VARIABLE i
 Trace == ndJsonDeserialize(IOEnv.TRACE_FILE)
 
 TInit == /\ i \in 1..Len(Trace)
-         /\ tab = <<>> /\ opts = [tw |-> 0, fixed |-> FALSE, bs |-> 0, collapse |-> FALSE, cap |-> 0]
+         /\ tab = <<>> /\ opts = [tw |-> 0, fixed |-> FALSE, bs |-> 0, collapse |-> FALSE, cap |-> 0, rtl |-> FALSE]
          /\ r = 1 /\ k = 1 /\ gx = 1 /\ occ = {} /\ placed = <<>> /\ phase = "trace"
 TNext == UNCHANGED <<vars, i>>
 \* always TRUE; prints the index and the violated clauses of every rejected record
